@@ -204,7 +204,7 @@ Proof.
       * intros _. apply H3. by left.
     + destruct (negb (bool_decide (svc s = Stopped))); [|done]. inversion Hs; subst. done.
   - (* LServeInit *)
-    destruct (svc s) eqn:Esv; try done. destruct n; [done|]. inversion Hs; subst.
+    destruct (svc s) eqn:Esv; try done. destruct (wq s) eqn:Ewq0; [done|]. destruct n; [done|]. inversion Hs; subst.
     split; simpl; try done.
     + intros _. split_and!; [done..|]. apply H3. by right.
     + intros q [= <-]. split_and!; [done| |done].
